@@ -8,8 +8,16 @@ OWN = {"P05_content"}
 
 # probe rule table for the class clause (rule semantics themselves are C11): stamped clients (account glob "?*") -> cacct, others -> cdef
 CLS = {"modules": ("iauth_xquery", "iauth_class"),
-       "rules": [{"name": "ra", "account": "?*", "class": "cacct"}, {"name": "rz", "class": "cdef"}],
+       # r0 never matches (its account pattern is tried and fails - the stamp must survive that), ra = stamped clients,
+       # rz = everybody else
+       "rules": [{"name": "r0", "account": "zzz-no-such-*", "class": "cnever"},
+                 {"name": "ra", "account": "?*", "class": "cacct"}, {"name": "rz", "class": "cdef"}],
        "cls": {"on": True, "acct": "cacct", "none": "cdef"}}
+# variant with an xreply_ok rule in front: an OK from b2.svc decides the class
+CLSX = {"modules": ("iauth_xquery", "iauth_class"),
+        "rules": [{"name": "r0", "xreply_ok": "b2.svc", "class": "cxr"},
+                  {"name": "ra", "account": "?*", "class": "cacct"}, {"name": "rz", "class": "cdef"}],
+        "cls": {"on": True, "acct": "cacct", "none": "cdef", "xr": {"svc": "b2.svc", "class": "cxr"}}}
 
 
 def plans(ctx):
@@ -20,14 +28,15 @@ def plans(ctx):
             R.Plan("rep1", "S_q1", script="ScriptReply1", rich_sel="RichReply", emit_mod=6, max_pw=2, opts=CLS),
             R.Plan("rep2", "S_t1a", script="ScriptReply2", rich_sel="RichReply", emit_mod=60, max_pw=2, opts=CLS),
             # free environment: every order of replies from a login and a dronecheck service
-            R.Plan("q1", "S_q1", emit_mod=60, max_inst=1, max_pw=2, opts=CLS)]
+            R.Plan("q1", "S_q1", emit_mod=60, max_inst=1, max_pw=2, opts=CLSX)]
     return [R.Plan("rep1", "S_q1", script="ScriptReply1", rich_sel="RichReply", emit_mod=1, max_pw=2, opts=CLS),
             R.Plan("rep2", "S_t1a", script="ScriptReply2", rich_sel="RichReply", emit_mod=8, max_pw=2, opts=CLS),
             R.Plan("rep3", "S_t1b", script="ScriptReply1", rich_sel="RichReply", emit_mod=1, max_pw=2, opts=CLS),
             R.Plan("rep4", "S_t1c", script="ScriptReply1", rich_sel="RichReply", emit_mod=4, max_pw=2, opts=CLS),
             R.Plan("rep5", "S_t1d", script="ScriptReply1", rich_sel="RichReply", emit_mod=1, max_pw=2),
             R.Plan("q1", "S_q1", emit_mod=4, max_inst=1, max_pw=2, opts=CLS),
-            R.Plan("t1a", "S_t1a", emit_mod=8, max_inst=1, max_pw=1, opts=CLS),
+            R.Plan("t1a", "S_t1a", emit_mod=8, max_inst=1, max_pw=1, opts=CLSX),
+            R.Plan("q1x", "S_q1", emit_mod=8, max_inst=1, max_pw=2, opts=CLSX),
             R.Plan("t1c", "S_t1c", emit_mod=12, max_inst=1, max_pw=2),
             R.Plan("two", "S_t1d", emit_mod=30, ids="Ids2", max_inst=1, max_pw=0, pw_on=False, opts=CLS),
             R.Plan("sim", "S_t1a", simulate="num=60", depth=50, workers=8, rich=True, ids="Ids2", max_inst=6, max_pw=3,
